@@ -490,7 +490,9 @@ impl<'e> EventLoop<'e> {
             return Err(Error::new(ErrorKind::TimedOut, "stop timeout !"));
         }
         assert_eq!(PoolState::Stopping, self.stopped()?);
-        assert!(BeanFactory::remove_bean::<Self>(self.name()).is_some());
+        // The loop stays registered: join handles refer to it, and the waiters that the stop has
+        // just released are still inside `wait_task_result` on it. Removing the bean here freed the
+        // loop (this very `self`) under them.
         Ok(())
     }
 }
